@@ -1579,10 +1579,51 @@ def c06_scripts(r, summ, nthreads):
     return scripts
 
 
+def c06_cleanup_race_case(r, seed):
+    """directed shape for the save phase: a directory whose files are, at some instant, all deleted or between
+    unlink and re-create by different workers while one of them checks the directory for removal"""
+    d = r.choice(["race", "src/race", "a/b/race"])
+    f, g = d + "/gone.c", d + "/kept.c"
+    content = b"l1\nl2\nl3\nl4\n"
+    t0 = {f: (content, 0o644), g: (content, 0o644), "other/z.txt": (b"z\n", 0o644)}
+    extra = r.random() < 0.3
+    if extra:
+        t0[d + "/third.c"] = (content, 0o644)
+    op_del = wsgen.Op("delete", f, pre=content, post=None, pre_mode=0o644, post_mode=None)
+    op_del.style = "devnull"
+    op_mod = wsgen.Op("modify", g, pre=content, post=b"l1\nL2\nl3\nl4\n", pre_mode=0o644, post_mode=0o644)
+    op_oth = wsgen.Op("modify", "other/z.txt", pre=b"z\n", post=b"z\nzz\n", pre_mode=0o644, post_mode=0o644)
+    ops = [op_del, op_mod, op_oth]
+    if extra:
+        o3 = wsgen.Op("delete", d + "/third.c", pre=content, post=None, pre_mode=0o644, post_mode=None)
+        o3.style = "devnull"
+        ops.append(o3)
+    r.shuffle(ops)
+    ws = wsgen.Workspace()
+    ws.seed = seed
+    ws.t0 = t0
+    if r.random() < 0.5:
+        p = wsgen.PatchSpec("p0-race.patch", ops, 1, False, False)
+        wsgen.render_patch(p, r)
+        ws.patches = [p]
+    else:
+        ws.patches = []
+        for i, o in enumerate(ops):
+            p = wsgen.PatchSpec("p%d-race.patch" % i, [o], 1, False, False)
+            wsgen.render_patch(p, r)
+            ws.patches.append(p)
+    t1 = {g: (op_mod.post, 0o644), "other/z.txt": (op_oth.post, 0o644)}
+    ws.trees = [t0, t1]
+    script = ["delay save-create:%s 40" % g, "after save-unlink:%s clean-readdir:%s 300" % (g, d), "after save-unlink:%s clean-rmdir:%s 300" % (g, d)]
+    return ws, script
+
+
 def c06_worker(item):
     seed, binary = item
     r = random.Random(seed * 715225741 + 6)
     res = Res()
+    if r.random() < 0.12:
+        return c06_cleanup_race(r, seed, binary, res)
     cfg = wsgen.GenConfig(p_fail=0.65, max_patches=r.choice([3, 5, 8]), max_files=r.choice([3, 6, 8]), max_ops=r.choice([2, 3, 4]))
     cfg.kinds = ["modify"] * 6 + ["create"] * 2 + ["delete"] * 3 + ["rename"] * 3 + ["chmod", "truncate"]
     ws = wsgen.generate(seed, cfg)
@@ -1670,6 +1711,59 @@ def c06_worker(item):
         if seed % 60 == 37:
             res["sample"] = {"workspace": ws.describe(), "threads": nthreads, "args": a_par, "schedules_run": [t for t, _ in scripts], "example_script": scripts[0][1][:6] if scripts else None,
                              "interleaving_signatures": sorted(repr(s) for s in sigs), "exit": r1.rc}
+    return res
+
+
+def c06_cleanup_race(r, seed, binary, res):
+    ws, script = c06_cleanup_race_case(r, seed)
+    nthreads = r.choice([2, 3, 4, 8])
+    a_seq = base_args(threads=1, backup="never", verbosity="-q") + ["push", "-a"]
+    a_par = base_args(threads=nthreads, backup="never", verbosity="-q") + ["push", "-a"]
+    with Scratch("c06r") as scr:
+        orig = os.path.join(scr, "ws.orig")
+        wsgen.materialize(ws, orig)
+        wseq = os.path.join(scr, "seq")
+        runner.copy_ws(orig, wseq)
+        r1 = runner.run_rq(binary, wseq, a_seq)
+        o1 = cli.observe(wseq)
+        for tag, lines in (("save-window", script), ("natural", None)):
+            w = os.path.join(scr, "par-" + tag)
+            runner.copy_ws(orig, w)
+            tr = os.path.join(scr, "trace-%s.log" % tag)
+            env = {"RAPIDQUILT_VERIF_TRACE": tr}
+            if lines:
+                sp = os.path.join(scr, "sched.txt")
+                with open(sp, "w") as f:
+                    f.write("\n".join(lines) + "\n")
+                env["RAPIDQUILT_VERIF_SCHED"] = sp
+            rr = runner.run_rq(binary, w, a_par, env_extra=env)
+            res["evals"] += 1
+            if rr.timed_out or r1.timed_out:
+                res["inconclusive"] = "watchdog"
+                return res
+            o2 = cli.observe(w)
+            what = None
+            if rr.crashed():
+                what = "crash"
+            elif rr.rc != r1.rc:
+                what = "exit-status"
+            elif o1["tree"] != o2["tree"] or o1["dirs"] != o2["dirs"]:
+                what = "tree"
+            elif o1["applied"] != o2["applied"]:
+                what = "applied-patches"
+            if what:
+                res.viol({"class": "parallel-differs", "what": what, "schedule": tag, "shape": "cleanup-race"},
+                         "threads=%d schedule %s: %s differs from the single-threaded run (seq rc %s, par rc %s); stderr: %s" % (nthreads, tag, what, r1.rc, rr.rc, rr.err.decode("utf-8", "replace")[-300:]),
+                         orig, [binary] + a_par, extra={"schedule": lines, "workspace": ws.describe()})
+                return res
+            ev = read_trace(tr)
+            workers = set(e["worker"] for e in ev if e["key"].startswith("save-unlink:"))
+            res.count("parallel-runs-compared")
+            res.count("schedule:%s" % tag)
+            if len(workers) >= 2:
+                res.count("cleanup-race-shape:directory-shared-by-two-save-workers")
+                res["nontrivial"].append(case_key("race", cli.ws_shape_key(ws), nthreads, tag))
+        res.count("held-workspaces")
     return res
 
 
